@@ -8,6 +8,7 @@ import (
 	"sort"
 	"strings"
 	"testing"
+	"time"
 
 	"github.com/streamingfast/substreams/manifest"
 	"github.com/streamingfast/substreams/pipeline/exec"
@@ -458,9 +459,6 @@ func checkC06(c c06Case) *ev.Failure {
 		if err != nil {
 			return ev.Failf("hash-error/original", "original graph: %v", err)
 		}
-		if f := hashesOtherViews(c.Graph, base); f != nil {
-			return f
-		}
 		// determinism: a second computation from scratch
 		again, _ := hashes(c.Graph.Clone())
 		for n, h := range base {
@@ -533,8 +531,26 @@ func checkC06(c c06Case) *ev.Failure {
 			}
 			return ev.Failf(sig, "mutation %+v left the identifier unchanged for %v (must change for the module and all its descendants)", c.Mutation, unchanged)
 		}
-		return nil
+		// the other ways the identifiers are computed (last: the graph of an output module is built by code that
+		// loops over the ancestors, see otherViewsBounded)
+		return otherViewsBounded(c.Graph, base)
 	})
+}
+
+// otherViewsBounded runs hashesOtherViews with a bound on its duration: building the graph of an output module
+// is a computation of microseconds on these graphs, but one that loops until every ancestor is placed; when the
+// module graph misses an edge it spins for ever, and the identifiers of that view never come. Thirty seconds
+// without an answer are reported as that (no load makes microseconds into thirty seconds), instead of letting the
+// whole run time out without a verdict.
+func otherViewsBounded(g gdsl.Graph, base map[string]string) *ev.Failure {
+	done := make(chan *ev.Failure, 1)
+	go func() { done <- safely(func() *ev.Failure { return hashesOtherViews(g, base) }) }()
+	select {
+	case f := <-done:
+		return f
+	case <-time.After(30 * time.Second):
+		return ev.Failf("no-identifier/output-graph-does-not-terminate", "computing the identifiers through the graph of an output module (exec.NewOutputModuleGraph) did not return within 30 s")
+	}
 }
 
 // sameIdentityExchange: the mutation exchanged references to two modules whose identifiers are equal.
